@@ -256,20 +256,12 @@ func CountOpen(evs []Event) Counts {
 	return c
 }
 
-// NormSQL reduces generated savepoint names to a fixed token.
+// NormSQL reduces generated savepoint names (gorm names them "sp" + something
+// unique per block: a random number today) to a fixed token.
 func NormSQL(q string) string {
 	for _, p := range []string{"SAVEPOINT sp", "ROLLBACK TO SAVEPOINT sp"} {
-		if strings.HasPrefix(q, p) {
-			rest := q[len(p):]
-			digits := len(rest) > 0
-			for _, c := range rest {
-				if c < '0' || c > '9' {
-					digits = false
-				}
-			}
-			if digits {
-				return p + "#"
-			}
+		if strings.HasPrefix(q, p) && len(q) > len(p) && !strings.ContainsAny(q[len(p):], " ;") {
+			return p + "#"
 		}
 	}
 	return q
